@@ -153,6 +153,10 @@ fn pick_repl(rng: &mut Rng, fam: &Family) -> String {
     }
 }
 
+fn rng_pick_key(fams: &[&Family], rng: &mut Rng) -> Key {
+    fams[rng.below(fams.len())].key.clone()
+}
+
 fn vary_key(rng: &mut Rng, k: &Key) -> Key {
     // occasionally perturb the flags (another object with the same pattern text)
     let mut k = k.clone();
@@ -175,7 +179,141 @@ fn vary_key(rng: &mut Rng, k: &Key) -> Key {
     k
 }
 
+/// Soak flavour: few objects, very long histories. For each object: a probe call A, then
+/// d-1 identical other calls B, then A again, with d on and around 2^8 and 2^16 (call
+/// counters, generation stamps and similar per-object bookkeeping wrap there).
+pub fn generate_soak(seed: u64) -> RunSpec {
+    let mut rng = Rng::stream(seed, 0x50A4);
+    let c = corpus();
+    // prefer the hand-written families for the zero-length-match memo / captures
+    let fam = loop {
+        let idx = if rng.chance(70, 100) {
+            c.hand[rng.below(20.min(c.hand.len()))]
+        } else {
+            *rng.pick(&c.hand)
+        };
+        let f = &c.families[idx];
+        if !f.err && f.inputs.iter().filter(|s| !s.is_empty()).count() >= 2 {
+            break f;
+        }
+    };
+    let mut ins: Vec<&String> = fam.inputs.iter().filter(|s| !s.is_empty()).collect();
+    ins.sort_by_key(|s| s.chars().count());
+    let short = ins[0].clone();
+    let long = ins[ins.len() - 1].clone();
+    let dists = [256usize, 65536, 65535, 65537, 255, 257, 32768, 4096, 65534];
+    let slots = 4;
+    let mut ops = Vec::new();
+    for slot in 0..slots {
+        ops.push(Op::Compile {
+            slot,
+            key: fam.key.clone(),
+            drop_first: false,
+        });
+    }
+    // three runs in four put every object at the 2^16 distance (four different probes per
+    // run); the fourth uses the cheap small distances and off-by-one hedges
+    let big = rng.chance(75, 100);
+    for slot in 0..slots {
+        let d = if big {
+            if slot == 3 && rng.chance(50, 100) {
+                *rng.pick(&[65535usize, 65537, 65534])
+            } else {
+                65536
+            }
+        } else {
+            match slot {
+                0 => 256,
+                _ => *rng.pick(&dists[4..8]),
+            }
+        };
+        let probe_kind = rng.below(4);
+        // probe haystacks: the family's inputs and variants that shift the positions visited
+        let base = if rng.chance(50, 100) {
+            long.clone()
+        } else {
+            rng.pick(&fam.inputs).clone()
+        };
+        let a_input = match rng.below(5) {
+            0 => format!("x{}", base),
+            1 => format!("xxxx{}", base),
+            2 => format!("{}-{}", base, short),
+            3 => format!("{} {}", short, base),
+            _ => base,
+        };
+        let b_input = if rng.chance(75, 100) {
+            short.clone()
+        } else {
+            rng.pick(&fam.inputs).clone()
+        };
+        let repl = pick_repl(&mut rng, fam);
+        let probe = |ops: &mut Vec<Op>| match probe_kind {
+            0 => ops.push(Op::IsMatch {
+                slot,
+                input: a_input.clone(),
+            }),
+            1 => ops.push(Op::ReplaceAll {
+                slot,
+                input: a_input.clone(),
+                repl: repl.clone(),
+            }),
+            2 => {
+                ops.push(Op::Tokenize {
+                    slot,
+                    input: a_input.clone(),
+                    it: 0,
+                });
+                ops.push(Op::Drain { it: 0 });
+                ops.push(Op::DropIter { it: 0 });
+            }
+            _ => {
+                ops.push(Op::Analyze {
+                    slot,
+                    input: a_input.clone(),
+                    it: 0,
+                });
+                ops.push(Op::Drain { it: 0 });
+                ops.push(Op::DropIter { it: 0 });
+            }
+        };
+        probe(&mut ops);
+        ops.push(Op::Soak {
+            slot,
+            method: if slot < 2 || rng.chance(80, 100) {
+                Method::IsMatch
+            } else {
+                Method::ReplaceAll
+            },
+            input: b_input,
+            repl: "x".into(),
+            n: d - 1,
+        });
+        probe(&mut ops);
+        // and once more right after the boundary
+        probe(&mut ops);
+    }
+    RunSpec {
+        seed,
+        flavor: "s".into(),
+        slots,
+        policy: Policy::Seq,
+        mask_lo: 0,
+        mask_hi: 0,
+        sched_seed: mix(seed, 0x5EED_5C4E),
+        hash_stream: mix(seed, 0x4A54_4B45),
+        setup_ops: 0,
+        scripts: vec![ops],
+        crashes: vec![],
+        decisions: None,
+        fresh_threads: rng.chance(50, 100),
+        late: None,
+    }
+}
+
 pub fn generate(seed: u64, flavor: &str) -> RunSpec {
+    if flavor == "s" {
+        return generate_soak(seed);
+    }
     let cold_flavor = flavor == "b";
     let mut rng = Rng::stream(seed, if cold_flavor { 0xB10C } else { 0x0001 });
     // block-table heavy workload: always for cold-start runs, and for a share of the others
@@ -195,7 +333,10 @@ pub fn generate(seed: u64, flavor: &str) -> RunSpec {
         75..=89 => 3,
         _ => 4,
     };
-    let nfam = rng.range(1, 3);
+    // compile-storm style: construction-heavy scripts (many compilations of several distinct
+    // keys racing with each other and with calls), for state shared between compilations
+    let storm = !cold_flavor && rng.chance(12, 100);
+    let nfam = if storm { rng.range(3, 5) } else { rng.range(1, 3) };
     let anchor = rng.below(blocks().len());
     let fams_owned: Vec<Family> = (0..nfam)
         .map(|_| pick_family(&mut rng, blocky, anchor))
@@ -302,11 +443,31 @@ pub fn generate(seed: u64, flavor: &str) -> RunSpec {
         let mut open: [bool; MAX_ITERS] = [false; MAX_ITERS];
         let mut open_slot: [usize; MAX_ITERS] = [0; MAX_ITERS];
         let mut i = 0;
-        while i < n && ops.len() < 16 {
+        while i < n && ops.len() < if storm { 24 } else { 16 } {
             i += 1;
             let slot = rng.below(slots);
             let fam = fams[slot_fam[slot]];
             let any_open = open.iter().any(|&o| o);
+            if storm && rng.chance(45, 100) {
+                let base = rng_pick_key(&fams, &mut rng);
+                let k = if rng.chance(25, 100) {
+                    vary_key(&mut rng, &base)
+                } else {
+                    base
+                };
+                ops.push(Op::Compile {
+                    slot,
+                    key: k,
+                    drop_first: rng.chance(50, 100),
+                });
+                // use the new object at once
+                let f2 = fams[rng.below(fams.len())];
+                ops.push(Op::IsMatch {
+                    slot,
+                    input: pick_input(&mut rng, f2, &fams),
+                });
+                continue;
+            }
             let r = rng.below(100);
             let op = match r {
                 0..=21 => Op::IsMatch {
@@ -400,7 +561,16 @@ pub fn generate(seed: u64, flavor: &str) -> RunSpec {
         scripts.push(ops);
     }
 
-    let fresh_threads = rng.chance(25, 100);
+    let fresh_threads = rng.chance(30, 100);
+    // F10: a late starter that only begins after another caller thread has exited
+    let late = if threads >= 2 && rng.chance(if fresh_threads { 45 } else { 10 }, 100) {
+        let mut v = vec![None; threads];
+        let j = 1 + rng.below(threads - 1);
+        v[j] = Some(rng.below(j));
+        Some(v)
+    } else {
+        None
+    };
     // --- fault plan: injected caller crashes (F2)
     let mut crashes = Vec::new();
     if rng.chance(30, 100) {
@@ -448,5 +618,6 @@ pub fn generate(seed: u64, flavor: &str) -> RunSpec {
         crashes,
         decisions: None,
         fresh_threads,
+        late,
     }
 }
